@@ -5,10 +5,14 @@
 // and built there.
 //
 // stdin:  JSON {"env":{name:hex}, "files":{relpath:hex}, "dirs":[relpath],
-//               "cases":[{"fn":"split","pipe":false,"args":[{"s":hex}|{"i":"-3"}|{"l":[hex]}|{"f":"1.5"}]}]}
+//
+//	"cases":[{"fn":"split","pipe":false,"args":[{"s":hex}|{"i":"-3"}|{"l":[hex]}|{"f":"1.5"}]}]}
+//
 // stdout: JSON {"outs":[{"k":"bool","t":true}|{"k":"str","a":hex}|{"k":"list","l":[hex]}|
-//                       {"k":"int","i":"7"}|{"k":"float","f":"2"}|{"k":"err","a":hex(msg)}],
-//               "utab":[[cp,isLetter,isUpper,isLower,toUpper,toLower,isSpace,isNumber,isPunct],...]}
+//
+//	        {"k":"int","i":"7"}|{"k":"float","f":"2"}|{"k":"err","a":hex(msg)}],
+//	"utab":[[cp,isLetter,isUpper,isLower,toUpper,toLower,isSpace,isNumber,isPunct],...]}
+//
 // The Unicode table lists Go's classification for every code point occurring in an argument
 // (it instantiates the Unicode parameters of the Coq model: a data translator).
 package main
@@ -20,6 +24,7 @@ import (
 	"fmt"
 	"os"
 	"path/filepath"
+	"regexp"
 	"sort"
 	"strconv"
 	"strings"
@@ -57,6 +62,7 @@ type Out struct {
 }
 type Res struct {
 	Outs []Out     `json:"outs"`
+	Refs []*Out    `json:"refs"`
 	Utab [][]int64 `json:"utab"`
 }
 
@@ -165,6 +171,116 @@ func runCase(c Case) (out Out) {
 	}
 }
 
+// refCase evaluates the Go standard-library namesake directly (subject string taken from the
+// LAST argument), independently of template_funcs: the reference of the property text
+// "the string functions equal their Go standard-library namesakes with the subject string as
+// last argument".  nil = no stdlib namesake / ill-typed call.
+func refCase(c Case) *Out {
+	str := func(i int) (string, bool) {
+		if i < len(c.Args) && c.Args[i].S != nil {
+			return unhex(*c.Args[i].S), true
+		}
+		return "", false
+	}
+	num := func(i int) (int, bool) {
+		if i < len(c.Args) && c.Args[i].I != nil {
+			v, err := strconv.ParseInt(*c.Args[i].I, 10, 64)
+			return int(v), err == nil
+		}
+		return 0, false
+	}
+	lst := func(v []string) *Out {
+		l := []string{}
+		for _, e := range v {
+			l = append(l, hx(e))
+		}
+		return &Out{K: "list", L: l}
+	}
+	sv := func(v string) *Out { return &Out{K: "str", A: hx(v)} }
+	bv := func(v bool) *Out { return &Out{K: "bool", T: v} }
+	n := len(c.Args)
+	a0, ok0 := str(0)
+	a1, ok1 := str(1)
+	switch c.Fn {
+	case "contains", "hasPrefix", "hasSuffix", "split", "splitAfter", "trim", "trimLeft", "trimRight", "trimPrefix", "trimSuffix":
+		if n != 2 || !ok0 || !ok1 {
+			return nil
+		}
+		switch c.Fn {
+		case "contains":
+			return bv(strings.Contains(a1, a0))
+		case "hasPrefix":
+			return bv(strings.HasPrefix(a1, a0))
+		case "hasSuffix":
+			return bv(strings.HasSuffix(a1, a0))
+		case "split":
+			return lst(strings.Split(a1, a0))
+		case "splitAfter":
+			return lst(strings.SplitAfter(a1, a0))
+		case "trim":
+			return sv(strings.Trim(a1, a0))
+		case "trimLeft":
+			return sv(strings.TrimLeft(a1, a0))
+		case "trimRight":
+			return sv(strings.TrimRight(a1, a0))
+		case "trimPrefix":
+			return sv(strings.TrimPrefix(a1, a0))
+		case "trimSuffix":
+			return sv(strings.TrimSuffix(a1, a0))
+		}
+	case "join":
+		if n == 2 && ok0 && c.Args[1].S == nil && c.Args[1].I == nil && c.Args[1].F == nil {
+			l := []string{}
+			for _, e := range c.Args[1].L {
+				l = append(l, unhex(e))
+			}
+			return sv(strings.Join(l, a0))
+		}
+	case "replace":
+		k, okk := num(2)
+		s, oks := str(3)
+		if n == 4 && ok0 && ok1 && okk && oks {
+			return sv(strings.Replace(s, a0, a1, k))
+		}
+	case "replaceAll":
+		s, oks := str(2)
+		if n == 3 && ok0 && ok1 && oks {
+			return sv(strings.ReplaceAll(s, a0, a1))
+		}
+	case "splitAfterN":
+		k, okk := num(1)
+		s, oks := str(2)
+		if n == 3 && ok0 && okk && oks {
+			return lst(strings.SplitAfterN(s, a0, k))
+		}
+	case "trimSpace", "lower", "upper", "quoteMeta", "base", "clean", "dir", "expandEnv", "getenv":
+		if n != 1 || !ok0 {
+			return nil
+		}
+		switch c.Fn {
+		case "trimSpace":
+			return sv(strings.TrimSpace(a0))
+		case "lower":
+			return sv(strings.ToLower(a0))
+		case "upper":
+			return sv(strings.ToUpper(a0))
+		case "quoteMeta":
+			return sv(regexp.QuoteMeta(a0))
+		case "base":
+			return sv(filepath.Base(a0))
+		case "clean":
+			return sv(filepath.Clean(a0))
+		case "dir":
+			return sv(filepath.Dir(a0))
+		case "expandEnv":
+			return sv(os.ExpandEnv(a0))
+		case "getenv":
+			return sv(os.Getenv(a0))
+		}
+	}
+	return nil
+}
+
 func main() {
 	var in In
 	if err := json.NewDecoder(os.Stdin).Decode(&in); err != nil {
@@ -202,6 +318,17 @@ func main() {
 	res := Res{Outs: []Out{}}
 	for _, c := range in.Cases {
 		res.Outs = append(res.Outs, runCase(c))
+		res.Refs = append(res.Refs, refCase(c))
+	}
+	// close the table under the simple case mappings (the model looks up mapped runes again)
+	for round := 0; round < 2; round++ {
+		add := []rune{}
+		for r := range runes {
+			add = append(add, unicode.ToUpper(r), unicode.ToLower(r))
+		}
+		for _, r := range add {
+			runes[r] = true
+		}
 	}
 	cps := []rune{}
 	for r := range runes {
